@@ -4,6 +4,7 @@ import (
 	"encoding/binary"
 	"fmt"
 	"io"
+	"math"
 	"os"
 	"path/filepath"
 
@@ -47,6 +48,9 @@ func Restore(r io.Reader, dstPath string) (int64, error) {
 	if full.DbHeader == nil {
 		return totalRead, fmt.Errorf("snapshot has no database header")
 	}
+	if full.DbHeader.SizeBytes > math.MaxInt64 {
+		return totalRead, fmt.Errorf("database size in header out of range: %d", full.DbHeader.SizeBytes)
+	}
 
 	// Extract DB file. Wrap the source in a CRC32Reader so we can verify
 	// the bytes match the header's CRC32 without a second pass over disk.
@@ -80,6 +84,9 @@ func Restore(r io.Reader, dstPath string) (int64, error) {
 		dir := filepath.Dir(dstPath)
 		var walFiles []string
 		for i, wh := range full.WalHeaders {
+			if wh.SizeBytes > math.MaxInt64 {
+				return totalRead, fmt.Errorf("WAL %d size in header out of range: %d", i, wh.SizeBytes)
+			}
 			walPath := filepath.Join(dir, fmt.Sprintf("restore-wal-%d.tmp", i))
 			wf, err := os.Create(walPath)
 			if err != nil {
